@@ -6,7 +6,7 @@ import shutil
 import sys
 import tempfile
 
-from core import Check, run_check
+from core import Check, run_check, watchdog
 import gen
 from p_graph import tokenize_gfa
 from p_conv import synth_stable
@@ -58,7 +58,8 @@ class Case:
         if os.path.exists(idx):
             os.remove(idx)
         try:
-            index.run(self.gaf, self.gfa)
+            with watchdog(60):
+                index.run(self.gaf, self.gfa)
             with open(idx, "rb") as f:
                 return pickle.load(f), None
         except BaseException as e:  # noqa
@@ -68,7 +69,8 @@ class Case:
         from gaftools.cli import view, CommandLineError
         out = os.path.join(self.tmp, "v.out")
         try:
-            view.run(self.gaf, gfa=self.gfa, output=out, nodes=list(nodes), regions=list(regions), format=fmt)
+            with watchdog(30):
+                view.run(self.gaf, gfa=self.gfa, output=out, nodes=list(nodes), regions=list(regions), format=fmt)
             return open(out).read().splitlines()
         except CommandLineError:
             return "none"
